@@ -408,3 +408,114 @@ theorem stringColumns_c07 (s : List UInt8) :
     simp [hst]
 
 end Tickit.RB.Utf8
+
+namespace Tickit.RB
+open Tickit.RBAbs
+
+/-! ## `get_cell_text` -/
+
+/-- A one-column start cell showing the given content. -/
+def contentCell : Content → Cell
+  | .skip => { state := .skip, cols := 1 }
+  | .text p s k => { state := .text, cols := 1, pen := p, text := s, offs := k }
+  | .erase p => { state := .erase, cols := 1, pen := p }
+  | .line p m => { state := .line, cols := 1, pen := p, lmask := m }
+  | .char p cp => { state := .char, cols := 1, pen := p, cp := cp }
+
+/-- What `tickit_renderbuffer_get_cell_text` answers for a cell with the given abstract content (buffer of
+    `len` bytes): nothing for skip and erase, the UTF-8 of the glyph / code point for line and char, and for text
+    the grapheme of the string at the cell's column. -/
+def contentText (ct : Content) (len : Nat) : Int × List UInt8 := getSpanText1 ⟨contentCell ct, 0⟩ len
+
+theorem getSpanText1_content (start : Cell) (off : Int) (len : Nat) (h : start.state ≠ .cont) :
+    getSpanText1 ⟨start, off⟩ len = contentText (cellContent start off) len := by
+  unfold contentText cellContent getSpanText1
+  cases hs : start.state <;> simp [contentCell, hs] at h ⊢ <;> rfl
+
+/-- **`get_cell_text`, by the abstract content.**  On a well-formed buffer the query for user coordinates
+    `(l, c)` is answered from the abstract content of the cell `(l + xlLine, c + xlCol)` alone — whatever run the
+    cell belongs to and wherever that run was cut — and with `-1` exactly for cells outside the clipping region. -/
+theorem getCellText_abs {rb : RB} (wf : WF rb) (l c : Int) (len : Nat) :
+    getCellText rb l c len =
+      if absClipRect rb.clip (l + rb.xlLine) (c + rb.xlCol) = true
+      then contentText (absContent rb (l + rb.xlLine) (c + rb.xlCol)) len else (-1, []) := by
+  unfold getCellText getSpan
+  cases hx : xlateAndClip rb l c 1 with
+  | none =>
+    simp only
+    rw [if_neg]
+    intro x
+    exact xlateAndClip_none hx (c + rb.xlCol) ⟨by omega, by omega, x⟩
+  | some r =>
+    simp only
+    obtain ⟨r1, r2, r3, r4, r5, r6, r7, r8⟩ := xlateAndClip_one wf.clip hx
+    rw [← r1, ← r2, if_pos r8]
+    have hb : inBuf rb.lines rb.cols r.line r.col = true := (inBuf_iff _ _ _ _).2 ⟨r4, r5, r6, r7⟩
+    rw [absContent_eq, if_pos hb]
+    unfold rowContent
+    have hrow := wf.rows r.line r4 r5
+    unfold RB.cell
+    by_cases hc : ((rb.cells r.line).get r.col).state = .cont
+    · rw [if_pos hc, if_pos hc]
+      have hst := hrow.cont_start r.col r6 r7 hc
+      simp only
+      rw [if_neg hst]
+      exact getSpanText1_content _ _ _ hst
+    · rw [if_neg hc, if_neg hc]
+      simp only
+      rw [if_neg hc]
+      exact getSpanText1_content _ _ _ hc
+
+theorem toPos_ofPos (p : Tickit.Utf8.Pos) : Utf8.toPos (Utf8.ofPos p) = p := by
+  unfold Utf8.toPos Utf8.ofPos
+  cases p; simp
+
+open Tickit.Utf8 (specRun) in
+open Tickit.Props.C07 (Scans graphemes) in
+/-- **The text of a text cell, in C07's terms.**  For a cell showing column `k` of the string `s`: count whole
+    graphemes from the start of `s` while the columns stay `≤ k` — that is the position `st`; count one more
+    grapheme from there — that is `en`; `get_cell_text` returns the bytes `s[st.bytes, en.bytes)`, i.e. the
+    grapheme that occupies column `k` (for the second column of a double-width character: the grapheme *after*
+    it, because the wide one does not fit into `k` columns — what the code does), or `-1` if the buffer is too
+    short.  Both counts are `Props.C07`'s `specRun` over the scanned characters. -/
+theorem cellText_text_c07 (p : Pen) (s : List UInt8) (k : Int) (len : Nat) :
+    ∃ cs1 t1 cs2 t2 st en,
+      Scans (Utf8.memOf s) (s.length + 1) none Tickit.Utf8.Pos.zero cs1 t1 ∧
+      st = (specRun (some ⟨none, -1, -1, k⟩) (graphemes cs1) t1 Tickit.Utf8.Pos.zero).pos ∧
+      Scans (Utf8.memOf s) (s.length + 1) none st cs2 t2 ∧
+      en = (specRun (some ⟨none, -1, st.graphemes + 1, -1⟩) (graphemes cs2) t2 st).pos ∧
+      contentText (.text p s k) len =
+        (if (len : Int) < (en.bytes : Int) - st.bytes then (-1, [])
+         else ((en.bytes : Int) - st.bytes, (s.drop st.bytes).take (en.bytes - st.bytes))) := by
+  obtain ⟨cs1, t1, hs1, hp1, _⟩ := Utf8.ncountmore_c07 s none {} (some (Utf8.limitColumns k)) (Int.le_refl _) (Or.inl rfl)
+    (fun l h => by cases h; simp [Utf8.limitColumns])
+  have hz : Utf8.toPos {} = Tickit.Utf8.Pos.zero := rfl
+  have hl1 : (some (Utf8.limitColumns k)).map Utf8.toLimit = some (⟨none, -1, -1, k⟩ : Tickit.Utf8.Limit) := by
+    simp [Utf8.limitColumns, Utf8.toLimit]
+  rw [hz] at hs1
+  rw [hz, hl1] at hp1
+  generalize hst : (specRun (some ⟨none, -1, -1, k⟩) (graphemes cs1) t1 Tickit.Utf8.Pos.zero).pos = st at hp1
+  obtain ⟨cs2, t2, hs2, hp2, _⟩ := Utf8.ncountmore_c07 s none (Utf8.ofPos st) (some (Utf8.limitGraphemes (st.graphemes + 1)))
+    (by show (0 : Int) ≤ (st.bytes : Int); omega) (Or.inl rfl) (fun l h => by cases h; simp [Utf8.limitGraphemes])
+  have hl2 : (some (Utf8.limitGraphemes (st.graphemes + 1))).map Utf8.toLimit =
+      some (⟨none, -1, st.graphemes + 1, -1⟩ : Tickit.Utf8.Limit) := by
+    simp [Utf8.limitGraphemes, Utf8.toLimit]
+  rw [toPos_ofPos] at hs2
+  rw [toPos_ofPos, hl2] at hp2
+  generalize hen : (specRun (some ⟨none, -1, st.graphemes + 1, -1⟩) (graphemes cs2) t2 st).pos = en at hp2
+  refine ⟨cs1, t1, cs2, t2, st, en, hs1, hst.symm, hs2, hen.symm, ?_⟩
+  unfold contentText getSpanText1 contentCell
+  simp only [Int.add_zero]
+  rw [hp1]
+  have hg : (Utf8.ofPos st).graphemes = st.graphemes := rfl
+  rw [hg, hp2]
+  show (if (len : Int) < ((en.bytes : Nat) : Int) - ((st.bytes : Nat) : Int) then _ else _) = _
+  have e1 : (((st.bytes : Nat) : Int)).toNat = st.bytes := by omega
+  have e2 : (((en.bytes : Nat) : Int) - ((st.bytes : Nat) : Int)).toNat = en.bytes - st.bytes := by omega
+  split
+  · rfl
+  · show (_, (s.drop (((st.bytes : Nat) : Int)).toNat).take (((en.bytes : Nat) : Int) - ((st.bytes : Nat) : Int)).toNat) = _
+    rw [e1, e2]
+    rfl
+
+end Tickit.RB
